@@ -16,6 +16,10 @@ TOLERANCES = {"length": "1e-9 abs + 1e-9 rel"}
 ASSUMPTIONS = ["notes of a chart = its hit list and hold list; tie groups of more than 3 notes are out of domain"]
 
 
+def pinned(tier):
+    return [dict(cls="repo_test_suite", select=['tests/algorithm_tests/generate'])] if tier == "thorough" else []
+
+
 def gen(rng, tier, k):
     from rv.gen import charts
 
@@ -53,6 +57,9 @@ def maps_of(x):
 
 
 def run(ctx, case):
+    if case.get("cls") == "repo_test_suite":
+        from rv.suite import run_repo_tests
+        return run_repo_tests(ctx, case.get("select"))
     import importlib
 
     from reamber.algorithms.generate import full_ln
